@@ -4,11 +4,13 @@ import (
 	"bytes"
 	"context"
 	"crypto/tls"
+	"encoding/base64"
 	"fmt"
 	"io"
 	"net"
 	"net/http"
 	"net/netip"
+	"net/url"
 	"runtime/debug"
 	"slices"
 	"strings"
@@ -180,6 +182,43 @@ func rawDoH(n *simnet.Net, addr string, ip netip.Addr, raw []byte) (status int, 
 // rawDoHUpload posts raw; with abort set the request announces more octets
 // than it carries and is given up once they are sent.
 func rawDoHUpload(n *simnet.Net, addr string, ip netip.Addr, raw []byte, abort bool) (status int, body []byte) {
+	return rawDoHAny(n, addr, ip, raw, abort, "")
+}
+
+// dohGetProbe sends raw as the dns parameter of a GET request, the base64
+// text written as given (line breaks and all).
+func dohGetProbe(n *simnet.Net, addr string, ip netip.Addr, param string) (po probeOutcome) {
+	status, body := rawDoHAny(n, addr, ip, nil, false, param)
+	switch {
+	case status == 0:
+		return probeOutcome{desc: "transport error"}
+	case status != http.StatusOK:
+		return probeOutcome{desc: fmt.Sprintf("http %d", status)}
+	}
+
+	return describeFrames([][]byte{body}, "http 200")
+}
+
+// base64Lines is raw in unpadded base64url with a line break after every
+// every-th character and at the end, which decoders skip.
+func base64Lines(raw []byte, every int) (param string) {
+	enc := base64.RawURLEncoding.EncodeToString(raw)
+	if every <= 0 {
+		return enc
+	}
+	var sb strings.Builder
+	for i, c := range enc {
+		sb.WriteRune(c)
+		if (i+1)%every == 0 {
+			sb.WriteByte('\n')
+		}
+	}
+	sb.WriteString("\n\n")
+
+	return sb.String()
+}
+
+func rawDoHAny(n *simnet.Net, addr string, ip netip.Addr, raw []byte, abort bool, getParam string) (status int, body []byte) {
 	h2 := &http2.Transport{
 		TLSClientConfig: clientTLS("dns.sim.test", "h2"),
 		DialTLSContext: func(ctx context.Context, _, _ string, cfg *tls.Config) (net.Conn, error) {
@@ -198,6 +237,9 @@ func rawDoHUpload(n *simnet.Net, addr string, ip netip.Addr, raw []byte, abort b
 	defer h2.CloseIdleConnections()
 
 	req, _ := http.NewRequest(http.MethodPost, "https://dns.sim.test/dns-query", bytes.NewReader(raw))
+	if getParam != "" {
+		req, _ = http.NewRequest(http.MethodGet, "https://dns.sim.test/dns-query?dns="+url.QueryEscape(getParam), nil)
+	}
 	if abort {
 		req.Body = &failingBody{data: raw}
 		req.GetBody = nil
@@ -349,6 +391,7 @@ func runC06(s *kernel.Sim, _ string) {
 	for i := range aborted {
 		aborted[i] = t.Chance(1, 4, "doh-upload-aborted")
 	}
+	getLines := kernel.Pick(t, []int{0, 0, 1, 3, 7}, "doh-get-line-breaks")
 	lenPrefix := t.Choose(3, "prefix-mismatch")
 	// Where the DoQ stream of the probe is cut into pieces (offsets into the
 	// framed message), if anywhere.
@@ -384,6 +427,12 @@ func runC06(s *kernel.Sim, _ string) {
 		_, _ = streamExchange(tk, n, addrDNS, nil, chunks, false)
 		_, _ = streamExchange(tk, n, addrDoT, clientTLS("dns.sim.test"), chunks, false)
 		for i, q := range hist {
+			if i%3 == 2 {
+				// Some of the history arrives over GET.
+				_ = dohGetProbe(n, addrDoH, vip, base64Lines(q, 0))
+
+				continue
+			}
 			if aborted[i] {
 				// An upload given up before its announced end.
 				_, _ = rawDoHUpload(n, addrDoH, vip, q, true)
@@ -423,6 +472,10 @@ func runC06(s *kernel.Sim, _ string) {
 			streamProbe(tk, n, addrDoTB, clientTLS("dns.sim.test"), [][]byte{framed}),
 		})
 		pairs = append(pairs, pair{"doh", dohProbe(n, addrDoH, aip, raw), dohProbe(n, addrDoHB, aip, raw)})
+		// The same over GET, the parameter now and then with line breaks in
+		// it (decoders skip them).
+		getParam := base64Lines(raw, getLines)
+		pairs = append(pairs, pair{"doh-get", dohGetProbe(n, addrDoH, aip, getParam), dohGetProbe(n, addrDoHB, aip, getParam)})
 		// On DoQ the same framing variants: the prefix may announce more (or
 		// less) than the stream carries before it ends.
 		// The stream may reach the server in several pieces.
